@@ -130,7 +130,9 @@ def handle (ds : DState) (op : String) (args impl : List String) : Option (DStat
         let tag := s!"sr_findsec.file.{q.kind}.{depthClass lim ((d.filter (·.kind == "S")).foldl (fun a r => max a (C20.Rel.depthOf r.path)) 0)}"
         fin (verdict tag (okIds m) impl false fun ans =>
           C20.Rel.asSet "result_is_exactly_the_accepted_entities_within_depth" ans (C20.Rel.fileSections d lim q.rel))
-      else if start == "$-" then fin (cmp "sr_findsec.null" uninit impl)
+      else if start == "$-" then
+        -- a null section: `addChildrenIfNotMaxDepth` touches the entity only when 0 < max_depth
+        fin (cmp "sr_findsec.null" (if maxd == 0 then okIds [] else uninit) impl)
       else match recOfSlot "S" start with
         | none => fin (.malformed s!"sr_findsec: no live section in {start}")
         | some r =>
@@ -186,7 +188,9 @@ def handle (ds : DState) (op : String) (args impl : List String) : Option (DStat
             [("related_is_downstream_then_parents_then_sideways", C20.Rel.sameSet ans (exp.map (·.id))),
              ("each_entity_once", C20.Rel.nodupStr ans)])
   | "sr_referring", [kind, slot, bl] =>
-    if slot == "$-" then fin (cmp "sr_referring.null" uninit impl) else
+    if slot == "$-" then
+      -- a null section with a null block: `if (b)` is false before the section is touched
+      fin (cmp "sr_referring.null" (if bl == "$-" && kind.startsWith "sec" then okIds [] else uninit) impl) else
     let block : Option (Option Rec) :=            -- none = malformed; some none = all blocks
       if bl == "~" then some none else if bl == "$-" then some none else (recOfSlot "B" bl).map some
     match block with
